@@ -21,10 +21,14 @@ var Prop = &core.Prop{ID: "C04", Run: run, Child: child}
 
 type graphCase struct {
 	Seed     uint64 `json:"seed"`
-	Directed int    `json:"directed"` // index of a directed scenario, -1 = PRNG graph
+	Directed int    `json:"directed"`       // index of a directed scenario, -1 = PRNG graph
+	Kind     string `json:"kind,omitempty"` // "reexport": re-export chain with mixed import sections
 }
 
 func scenarioFor(gc graphCase) *gen {
+	if gc.Kind == "reexport" {
+		return genReexport(gc.Seed)
+	}
 	if gc.Directed >= 0 {
 		return genDirected(gc.Directed, gc.Seed)
 	}
@@ -212,6 +216,10 @@ func run(c *core.Ctx) int {
 	for i := 0; i < nDirected; i++ {
 		gcases = append(gcases, core.J(graphCase{Seed: rng.U64(), Directed: i}))
 	}
+	nReexport := c.N(150, 1500)
+	for i := 0; i < nReexport; i++ {
+		gcases = append(gcases, core.J(graphCase{Seed: rng.U64(), Directed: -1, Kind: "reexport"}))
+	}
 	nGraphs := c.N(3000, 60000)
 	for i := 0; i < nGraphs; i++ {
 		gcases = append(gcases, core.J(graphCase{Seed: rng.U64(), Directed: -1}))
@@ -236,6 +244,8 @@ func run(c *core.Ctx) int {
 		if r.Index < nDirected {
 			directedSeen++
 			c.Distinct("directed_scenarios", gr.Name)
+		} else if r.Index < nDirected+nReexport {
+			c.Count("reexport_chain_scenarios", 1)
 		} else {
 			c.Count("graphs", 1)
 			if gr.Mods >= 2 {
@@ -269,6 +279,7 @@ func run(c *core.Ctx) int {
 	}
 	// classes the property names must have been reached
 	for _, k := range []string{"cross_instance_read_after_write_global", "cross_instance_read_after_write_memory", "cross_instance_read_after_write_table",
+		"reexport_function_imported_with_type_of_another_function", "reexport_exact_type_importers", "modules_with_interleaved_import_section",
 		"capture_global-init_immutable", "capture_global-init_mutable", "capture_data-offset_mutable", "capture_elem-offset_mutable", "capture_elem-init_mutable",
 		"fail_data-oob", "fail_elem-oob", "fail_start-trap", "fail_missing", "fail_link"} {
 		if c.Counter(k) == 0 {
